@@ -865,7 +865,12 @@ def normalise(prog, crates, keep=()):
                             for k in ('rfn', 'fn'):
                                 if op.const.get(k) in nz.inlinable:
                                     still.add(op.const[k])
-    absorbed = [p for p in nz.inlinable if p not in still]
+    # a helper that nobody calls at all (dead code, e.g. after an edit that dropped its only call) was inlined nowhere: it
+    # stays in the program as it is, so that none of its call sites silently disappears from what the rules look at
+    used = set()
+    for b in new.values():
+        used |= set(getattr(b, 'inlined', []))
+    absorbed = [p for p in nz.inlinable if p not in still and p in used]
     # closures of absorbed functions were copied by reference (their bodies stay, paths unchanged); closures that were
     # inlined at their only invocation stay too (harmless: they contain no call sites of their own that matter twice?)
     for p in absorbed:
